@@ -449,6 +449,82 @@ pub fn run(ctx: &Ctx) -> i32 {
         }
     }));
     let s4 = SubReport::new("metadata", "A", "11 hostile strings (empty, NUL, embedded NUL, 70 bytes, 40 two-byte characters, newline, '-', ':') through each required field, all optional scalar setters, scriptlet / dependency / changelog / owner / symlink setters, and 8 mode integers (fifo, out of 16 bits, negative, i32::MAX) through FileOptions::mode; oracle: no panic", d);
+    // ---- destinations in and around the directories that packaging tools treat specially (locale trees, documentation,
+    // licences, debug information, configuration)
+    const SPECIAL: [&str; 22] = [
+        "/usr/share/locale", "/usr/share/man", "/usr/share/doc", "/usr/share/licenses", "/usr/share/info", "/usr/share/help", "/usr/lib/debug", "/usr/lib/.build-id", "/usr/lib/locale",
+        "/usr/lib64", "/usr/lib", "/usr/bin", "/usr/sbin", "/etc", "/var/run", "/run", "/tmp", "/boot", "/dev", "/proc", "/usr/share/man/man1", "/usr/src/debug",
+    ];
+    let mut sdests: Vec<String> = vec![];
+    for d in SPECIAL {
+        for tail in ["/f", "/de/f", "/de/LC_MESSAGES/f.mo", "/pt_BR@latin/f", "/.hidden", "/man1/f.1.gz", "/f/", "", "/", "/../f", "/./f", "//f", ".alias", ".d/f", "-x/f"] {
+            sdests.push(format!("{}{}", d, tail));
+            sdests.push(format!(".{}{}", d, tail));
+        }
+    }
+    let a8 = merge(par_fold(sdests.len() as u64 * 3, Acc::new, |i, acc| {
+        let dest = &sdests[(i / 3) as usize];
+        let kind = i % 3;
+        acc.evals += 1;
+        let case = || json!({"kind": "destination", "destination": dest, "entry": match kind { 0 => "regular file", 1 => "directory", _ => "symbolic link" }});
+        let opts = match kind {
+            0 => FileOptions::new(dest.clone()),
+            1 => FileOptions::new(dest.clone()).mode(rpm::FileMode::dir(0o755)),
+            _ => FileOptions::new(dest.clone()).mode(rpm::FileMode::symbolic_link(0o777)).symlink("target"),
+        };
+        match catch(|| try_build(&src, Ok(opts), none)) {
+            Err(p) => acc.viol(panic_violation("special-directories", &p, case()).sig("arg", "destination").rank(i)),
+            Ok(Err(k)) => acc.count(&format!("rejected: {}", k)),
+            Ok(Ok(_)) => {
+                acc.nontrivial += 1;
+                acc.count("accepted");
+                if must_reject(dest) {
+                    acc.viol(Violation::new("special-directories", format!("destination {:?} cannot be split into a directory and a file name but was accepted", dest), case()).sig("clause", "accepted-unsplittable-destination").rank(i));
+                }
+                if i % 101 == 0 {
+                    acc.sample(i, case);
+                }
+            }
+        }
+    }));
+    let s7 = SubReport::new("special-directories", "A", &format!("{} destinations in, below, beside and equal to 22 directories that packaging tools treat specially (locale and manual trees, documentation, licences, debug information, configuration, /proc, /dev …), in the '/' and './' spellings, each as a regular file, a directory and a symbolic link: no panic; Err when the string cannot be split", sdests.len()), a8);
+    // ---- scriptlets: every interpreter list of ≤ 3 words over a vocabulary of markers and their pieces, for each kind
+    const PWORDS: [&str; 8] = ["", "<", "<lua>", "<é", ">", "<>", "/bin/sh", "é"];
+    let mut plists: Vec<Vec<&str>> = vec![];
+    for len in 0..=3u32 {
+        for code in 0..(PWORDS.len() as u64).pow(len) {
+            plists.push((0..len).map(|i| PWORDS[(code / (PWORDS.len() as u64).pow(i) % PWORDS.len() as u64) as usize]).collect());
+        }
+    }
+    let bodies = ["exit 0", "", "é\n"];
+    let sn = (plists.len() * SCRIPT_KINDS.len() * bodies.len()) as u64;
+    let a7 = merge(par_fold(sn, Acc::new, |i, acc| {
+        let body = bodies[i as usize % bodies.len()];
+        let kind = SCRIPT_KINDS[i as usize / bodies.len() % SCRIPT_KINDS.len()];
+        let list = &plists[i as usize / bodies.len() / SCRIPT_KINDS.len()];
+        acc.evals += 1;
+        let case = || json!({"kind": "scriptlet", "scriptlet": kind, "body": body, "interpreter_list": list});
+        let r = catch(|| {
+            let sc = rpm::Scriptlet::new(body).prog(list.clone()).flags(rpm::ScriptletFlags::EXPAND);
+            let b = crate::spec::script_call(PackageBuilder::new("t", "1", "MIT", "noarch", "s").compression(none), kind, sc);
+            b.build().map(|p| {
+                let mut o = vec![];
+                let _ = p.write(&mut o);
+            })
+        });
+        match r {
+            Err(p) => acc.viol(panic_violation("scriptlets", &p, case()).sig("arg", "scriptlet").rank(i)),
+            Ok(Err(e)) => acc.count(&format!("rejected: {}", err_kind(&e))),
+            Ok(Ok(())) => {
+                acc.nontrivial += 1;
+                acc.count("accepted");
+                if i % 997 == 0 {
+                    acc.sample(i, case);
+                }
+            }
+        }
+    }));
+    let s6 = SubReport::new("scriptlets", "A", &format!("each of the nine scriptlet setters × 3 bodies × every interpreter list of ≤ 3 words over {:?} ({} lists: the built-in interpreter marker, its pieces, a marker ending in a multi-byte character, empty words): build + write, no panic", PWORDS, plists.len()), a7);
     // ---- file modes given as values with public fields: anything can be put into `permissions`
     let mut a6 = Acc::new();
     {
@@ -487,7 +563,7 @@ pub fn run(ctx: &Ctx) -> i32 {
     }
     ctx.finish(
         "exploration",
-        vec![s1, s1u, s1b, s1c, s1d, s1e, s1f, s2, s3, s4, s5],
+        vec![s1, s1u, s1b, s1c, s1d, s1e, s1f, s7, s2, s3, s4, s6, s5],
         &[
             "which in-between destinations (e.g. '/a/.', '/../a') are accepted is not specified; they must only not panic and, if accepted, give a usable package",
             "timestamp arguments of non-integer types (chrono dates before 1970) are outside the statement's 'strings and numbers'",
